@@ -19,6 +19,7 @@ var propTable = map[string]propFn{
 	"C11": checkC11,
 	"C12": checkC12,
 	"C14": checkC14,
+	"C17": checkC17,
 	"C19": checkC19,
 }
 
